@@ -10,6 +10,7 @@ fn run(name: &str, ctx: &mut rvcore::Ctx) -> bool {
         "c37" => once::run_c37(ctx),
         "c36" => registry::run_c36(ctx),
         "c19" => listener::run_c19(ctx),
+        "c36e" => listener::run_c36e(ctx),
         _ => return false
     }
     true
